@@ -89,7 +89,8 @@ def gen_case(rng, tier, index):
     if rng.random() < (0.5 if tier == "thorough" else 0.12):
         case["enumerate"] = True
         case["aborts"] = [{"kind": "bob-kill", "jobs": jobs, "sched_seed": rng.getrandbits(32), "point": 1}]
-        case["stride"] = 1 if tier == "thorough" else rng.choice([3, 5])
+        case["max_points"] = None if tier == "thorough" else 10
+        case["offset"] = rng.randrange(1000)
     return case
 
 def _cfg(a):
@@ -175,7 +176,12 @@ def run_case(case):
             r = buildsim.bob(proj, ["dev", "-j", str(a["jobs"]), "root"], {"sched_seed": a["sched_seed"]})
             npts = r.npoints or 0
             stats.inc("enumerated_kill_points", npts)
-            for k in range(1, npts + 1, case.get("stride", 1)):
+            stride = 1
+            if case.get("max_points") and npts > case["max_points"]:
+                stride = npts // case["max_points"]
+            first = 1 + (case.get("offset", 0) % stride)
+            stats.inc("enumeration_exhaustive" if stride == 1 else "enumeration_sampled")
+            for k in range(first, npts + 1, stride):
                 common.rmtree(proj)
                 shutil.copytree(snap, proj, symlinks=True)
                 rk = buildsim.bob(proj, ["dev", "-j", str(a["jobs"]), "root"],
